@@ -28,6 +28,7 @@ type Reply struct {
 	Proto     string        // "" = HTTP/1.1
 	Chunked   bool          // unknown length: ContentLength -1, Transfer-Encoding chunked (as a real transport reports it)
 	Note      string        // free text for samples
+	NilHeader bool          // the response is handed over with a nil header map
 }
 
 var ErrOrigin = errors.New("sim: scripted origin transport error")
@@ -50,6 +51,48 @@ type UpCall struct {
 	HadDeadline bool
 	Deadline    time.Time
 	body        []byte // body bytes as sent (complete)
+	bodyState   *bodyState
+}
+
+// bodyState records what became of the body of an upstream reply.
+type bodyState struct {
+	mu     sync.Mutex
+	closed bool
+	eof    bool
+}
+
+// BodyReleased reports whether the reply's body was closed or read to its
+// end (or there was none): otherwise its connection stays checked out under
+// net/http.
+func (c *UpCall) BodyReleased() bool {
+	if c.bodyState == nil {
+		return true
+	}
+	c.bodyState.mu.Lock()
+	defer c.bodyState.mu.Unlock()
+	return c.bodyState.closed || c.bodyState.eof
+}
+
+type trackedBody struct {
+	io.ReadCloser
+	st *bodyState
+}
+
+func (t *trackedBody) Read(p []byte) (int, error) {
+	n, err := t.ReadCloser.Read(p)
+	if err == io.EOF {
+		t.st.mu.Lock()
+		t.st.eof = true
+		t.st.mu.Unlock()
+	}
+	return n, err
+}
+
+func (t *trackedBody) Close() error {
+	t.st.mu.Lock()
+	t.st.closed = true
+	t.st.mu.Unlock()
+	return t.ReadCloser.Close()
 }
 
 // Body returns the complete body the origin generated for this call.
@@ -241,6 +284,14 @@ func (o *Origin) RoundTrip(req *http.Request) (*http.Response, error) {
 		resp.Body = &failingBody{r: bytes.NewReader(body), remain: min(rep.FailAt, len(body))}
 	} else {
 		resp.Body = io.NopCloser(bytes.NewReader(body))
+	}
+	if resp.Body != http.NoBody {
+		c.bodyState = &bodyState{}
+		resp.Body = &trackedBody{ReadCloser: resp.Body, st: c.bodyState}
+	}
+	if rep.NilHeader {
+		// a hand-written upstream that leaves the header map nil
+		resp.Header = nil
 	}
 	finish()
 	return resp, nil
